@@ -481,6 +481,11 @@ def make_case(ctx, rng, n):
     if marathon:
         depth = tier_marathon
         cfg["alias"] = False
+        if (n - len(SWEEP)) % 2 == 1:
+            # round 5: a mutation storm on ONE genome (well over a thousand attempts, approved and refused): caps on the audit log,
+            # counters that wrap, rollback after a long tail of refusals
+            cfg["storm"] = True
+            depth = max(depth, 1600)
     if sink != "stringio" and rng.random() < 0.7:
         cfg["silent"] = True                      # built silently, made verbose later through the public attribute
         cfg["unsilence_at"] = rng.randrange(depth)
@@ -744,6 +749,10 @@ class History:
         self.trace.append({"env": "member retired, members renumbered", "was": victim.idx})
 
     def pick_kind(self):
+        if self.cfg.get("storm"):
+            self.ctx.count("storm_ops")
+            r = self.rng.random()
+            return "mutate" if r < 0.9 else "rollback" if r < 0.94 else "reads" if r < 0.97 else "reconfigure"
         many = len(self.nodes) >= 5
         if len(self.nodes) >= 7:
             if self.cfg["alias"]:
